@@ -96,7 +96,7 @@ fn parse_allowed(s: &str) -> Option<AllowedIds> {
 fn parse_general(r: &str, l: &str, u: &str, a: &str) -> Option<GeneralResourceConstraint> {
     Some(GeneralResourceConstraint { required_ids: to_set(&parse_ids(r)?), lower_bound: parse_lower(l)?, upper_bound: parse_upper(u)?, allowed_ids: parse_allowed(a)? })
 }
-fn parse_c<'a>(t: &'a [&'a str]) -> Option<(ManifestResourceConstraint, &'a [&'a str])> {
+fn parse_c<'a, 'b>(t: &'a [&'b str]) -> Option<(ManifestResourceConstraint, &'a [&'b str])> {
     use ManifestResourceConstraint as C;
     match t.first().copied()? {
         "nz" => Some((C::NonZeroAmount, &t[1..])),
@@ -290,7 +290,7 @@ impl R {
         let mut conc: Option<Conc> = Some(c0);
         let mut items: Vec<String> = vec![];
         let mut fail: Option<(String, String)> = None;
-        let mut check = |what: &str, key: String, g: &GeneralResourceConstraint, c: &Option<Conc>, fail: &mut Option<(String, String)>| {
+        let check = |what: &str, key: String, g: &GeneralResourceConstraint, c: &Option<Conc>, fail: &mut Option<(String, String)>| {
             if let Some(cc) = c {
                 let indep = means(g, cc);
                 let imp = member_impl(g, c) == "m1";
@@ -1034,7 +1034,9 @@ fn gen_ecase(rng: &mut Rng) -> String {
             _ => {
                 if rng.chance(1, 2) {
                     if rng.chance(1, 3) {
-                        s.push_str(&format!(" {} 1 0 {}", rng.pick(&["nonly", "nincl"]), gen_econstraint(rng, 0, corner_ok)));
+                        let k = *rng.pick(&["nonly", "nincl"]);
+                        let c = gen_econstraint(rng, 0, corner_ok);
+                        s.push_str(&format!(" {} 1 0 {}", k, c));
                     }
                     s.push_str(" fau");
                     on_worktop[0] = true;
@@ -1081,21 +1083,27 @@ fn gen_ecase(rng: &mut Rng) -> String {
             }
             5 | 6 => {
                 let r = if avail.is_empty() { rng.below(3) as usize } else { *rng.pick(&avail) };
-                s.push_str(&format!(" {} 1 {} {}", rng.pick(&["aincl", "aincl", "aonly"]), r, gen_econstraint(rng, r, corner_ok)));
+                let k = *rng.pick(&["aincl", "aincl", "aonly"]);
+                let c = gen_econstraint(rng, r, corner_ok);
+                s.push_str(&format!(" {} 1 {} {}", k, r, c));
             }
             7 if !live.is_empty() => {
                 let b = *rng.pick(&live);
-                s.push_str(&format!(" ab {} {}", b, gen_econstraint(rng, rng.below(2) as usize, corner_ok)));
+                let rr = rng.below(2) as usize;
+                let c = gen_econstraint(rng, rr, corner_ok);
+                s.push_str(&format!(" ab {} {}", b, c));
             }
             8..=10 if !live.is_empty() => {
                 let b = *rng.pick(&live);
                 live.retain(|x| *x != b);
                 let acc = 1 + rng.below(2);
-                s.push_str(&format!(" {} {} {}", rng.pick(&["d", "tda", "tdr", "tdr"]), acc, b));
+                let k = *rng.pick(&["d", "tda", "tdr", "tdr"]);
+                s.push_str(&format!(" {} {} {}", k, acc, b));
             }
             11 => {
                 let acc = 1 + rng.below(2);
-                s.push_str(&format!(" {} {}", rng.pick(&["db", "tdrb"]), acc));
+                let k = *rng.pick(&["db", "tdrb"]);
+                s.push_str(&format!(" {} {}", k, acc));
                 if rng.chance(1, 2) {
                     on_worktop = [false; 3];
                 }
@@ -1104,7 +1112,9 @@ fn gen_ecase(rng: &mut Rng) -> String {
         }
     }
     for b in live {
-        s.push_str(&format!(" {} {} {}", rng.pick(&["d", "tdr", "d"]), rng.below(3), b));
+        let k = *rng.pick(&["d", "tdr", "d"]);
+        let acc = rng.below(3);
+        s.push_str(&format!(" {} {} {}", k, acc, b));
     }
     s.push_str(" db 0");
     s
